@@ -43,6 +43,11 @@ type TraceRule struct {
 	Loop  int // 0 = whole function; k = one iteration of loop k
 }
 
+type underLock struct {
+	Key  string
+	Read bool
+}
+
 type FuncContract struct {
 	Key      string
 	Pkg      string
@@ -83,6 +88,7 @@ type FuncContract struct {
 	TrustedAccess map[string]string
 	Lemmas   []*Clause
 	Holds    []*Clause
+	UnderLock []underLock
 	AssumeAtLock []*Clause
 	DepVerified bool // dependency function verified from its own SSA
 	Unverified bool
@@ -242,6 +248,15 @@ func (cs *Contracts) LoadContractFile(path, pkg string, repoStyle bool) error {
 				return perr(err)
 			}
 			cur.Holds = append(cur.Holds, &Clause{Kind: kw, Expr: e, Src: rest, File: path, Line: lineNo})
+			cur.HasSpec = true
+		case "under-lock":
+			// under-lock T.mu [read] : the caller holds the mutex T.mu of some object (the owner of the data
+			// this function works on); `read` if a read lock suffices. Checked at call sites.
+			f := strings.Fields(rest)
+			if len(f) == 0 {
+				return perr(fmt.Errorf("expected under-lock T.mu [read]"))
+			}
+			cur.UnderLock = append(cur.UnderLock, underLock{Key: pkg + "." + f[0], Read: len(f) > 1 && f[1] == "read"})
 			cur.HasSpec = true
 		case "lemma":
 			// lemma[Cxx,label] E : a state-independent fact needed by the argument, proved as its own
@@ -545,6 +560,12 @@ func parseGuard(rest, pkg string) (*GuardDecl, error) {
 		g.Class = "mutex"
 		k := strings.LastIndex(tail[1], ".")
 		g.Mutex = tail[1][k+1:]
+		g.Note = strings.Join(tail[2:], " ")
+	} else if len(tail) >= 2 && tail[0] == "under" {
+		// T.{f} under U.mu : the field belongs to objects owned by a U; it is accessed only while the
+		// mutex of (some) U is held: exclusively for writes
+		g.Class = "under"
+		g.Mutex = pkg + "." + tail[1]
 		g.Note = strings.Join(tail[2:], " ")
 	} else if len(tail) >= 2 && tail[0] == "class" {
 		g.Class = tail[1]
